@@ -35,7 +35,8 @@ CONSTANTS Ids,        \* trace ids (strings)
           Vers,       \* generations of trace objects per id (positive ints): Set with another object replaces
           Times,      \* SendBy values (positive ints, ticks)
           Nows,       \* `now` arguments of TakeExpiredTraces
-          Maxes,      \* `max` arguments (<= 0: unlimited)
+          Maxes,      \* `max` arguments (0: unlimited)
+          NegMax,     \* TRUE: also max = -1 (unlimited as well; a .cfg file cannot write a negative number)
           Rejects,    \* filters, each given as the set of ids it rejects (returns false for)
           RemoveSets  \* arguments of RemoveTraces: subsets of Ids \cup {Ghost}
 
@@ -124,10 +125,12 @@ TakeExpired(now, max, f) ==
 
 Filters == {[nil |-> TRUE, rejSet |-> {}]} \cup {[nil |-> FALSE, rejSet |-> S] : S \in Rejects}
 
+MaxArgs == IF NegMax THEN Maxes \cup {-1} ELSE Maxes
+
 Next == \/ \E k \in Ids, v \in Vers, t \in Times : Set(k, v, t)
         \/ SetNil
         \/ \E S \in RemoveSets : Remove(S)
-        \/ \E now \in Nows, max \in Maxes, f \in Filters : TakeExpired(now, max, f)
+        \/ \E now \in Nows, max \in MaxArgs, f \in Filters : TakeExpired(now, max, f)
 
 Spec == Init /\ [][Next]_vars
 
